@@ -215,6 +215,29 @@ func genProgram(r *rand.Rand, id int, tier string) *program {
 	return p
 }
 
+func (p *program) describe() map[string]interface{} {
+	ws := []interface{}{}
+	for _, w := range p.workers {
+		steps := []string{}
+		for _, st := range w.steps {
+			steps = append(steps, fmt.Sprintf("client%d ch%d %s %d (pause %v)", st.cl, st.ch, st.kind, st.amt, st.pause))
+		}
+		ws = append(ws, map[string]interface{}{"start": w.start.String(), "turn_group": w.token, "steps": steps})
+	}
+	sc := []interface{}{}
+	for c := range p.script {
+		for k := 0; k < 2; k++ {
+			ds := []string{}
+			for _, d := range p.script[c][k] {
+				ds = append(ds, fmt.Sprintf("%v/%v", d.accept, d.delay))
+			}
+			sc = append(sc, map[string]interface{}{"channel": c, "responder": k, "decisions(accept/delay, cyclic)": ds})
+		}
+	}
+	return map[string]interface{}{"class": p.class, "channels": p.nch, "apps": p.apps, "opener": p.opener, "gomaxprocs": p.procs,
+		"jitter": p.jitter, "request_timeout": p.reqTimeout.String(), "program_seed": p.seed, "workers": ws, "scripts": sc}
+}
+
 // ---------------------------------------------------------------- recording
 
 const (
@@ -1221,7 +1244,7 @@ func (r *run) renderChannel(c int, t *table) (term string, nEv int, problems []s
 	var byPart [2]int
 	byPart[ci.partOf[0]] = 0
 	byPart[ci.partOf[1]] = 1
-	term = fmt.Sprintf("(mkK %d %s\n [%s]\n %s %s [%s])", t.Ch(ci), txT(ci.init), strings.Join(evT, ";\n  "), snapT(byPart[0]), snapT(byPart[1]), strings.Join(resT, "; "))
+	term = fmt.Sprintf("(mkK %d %s\n [%s]\n %s %s [%s])", t.Ch(ci), txT(ci.init), strings.Join(evT, "\n  ; "), snapT(byPart[0]), snapT(byPart[1]), strings.Join(resT, "; "))
 	for _, s := range t.sts {
 		if strings.HasSuffix(s, "!") {
 			problems = append(problems, "a state differs from its channel in id, app, data or assets")
@@ -1383,7 +1406,7 @@ func Run(seed int64, tier, out string) {
 			}
 			for _, f := range v.fails {
 				f.Case = idx
-				f.Replay = map[string]interface{}{"program": i, "channel": c, "class": p.class, "procs": p.procs, "seed": seed, "case": term}
+				f.Replay = map[string]interface{}{"program": i, "channel": c, "seed": seed, "program_description": p.describe(), "observed_log": term}
 				res.Fail(f)
 			}
 			if len(w.cases) >= w.perFile {
